@@ -35,7 +35,7 @@ def cases(draw):
     }
     if kind == "linear":
         c["hp"] = {"t": "linear", "i": draw(st.sampled_from([1, 3, 8, 16, 33, 64, 160])), "o": draw(st.integers(1, 7)), "bias": draw(st.booleans())}
-        c["batch"] = draw(st.lists(st.integers(1, 4), min_size=1, max_size=3))
+        c["batch"] = draw(st.lists(st.integers(1, 4), min_size=0, max_size=3))  # [] = a single vector of activations
         if draw(st.integers(0, 9)) == 0:
             # thousands of rows (long sequences x batch): sizes beyond any plausible blocking threshold, not multiples of it
             c["batch"] = draw(st.sampled_from([[1030], [1500], [3, 700], [2, 23, 29], [2050], [4100]]))
